@@ -18,6 +18,10 @@ Flow
     GOMAXPROCS in {1, 2, 16} into different output directories, once more into the directory of an earlier execution and once
     into a directory pre-populated with longer garbage under the same file names; every file is hashed with the directory
     name blanked; the request a recording plugin received on stdin is hashed the same way.  All executions must agree.
+ 5. spec/Determinism/Replacer.tla: the one order-sensitive primitive behind the site "fm.replacer" (strings.Replacer fed from
+    a map): TLC shows (bounded) that a prefix-free key set makes the argument order irrelevant and that marker-shaped keys are
+    prefix-free, and emits marker texts; each is replayed many times into the real generator.FileManager (harness
+    `inproc c07replacer`): every replay must give the same content.
 Level: exploration (map-iteration seeds are sampled by repetition, not enumerated).
 """
 import concurrent.futures
@@ -355,9 +359,17 @@ class Runner:
         snaps.append(s)
         dirs.append(gdir)
         res["executions"] = len(snaps)
+        res["hows"] = [s["how"] for s in snaps]
         ref = snaps[0]
         res["files"] = len(ref["tree"])
         if ref["rc"] != 0 or not ref["tree"]:
+            ok = [s for s in snaps if s["rc"] == 0 and s["tree"]]
+            if ok:      # some executions of the same command succeed, others do not
+                res["diffs"].append({"object": "exit", "kind": "exit-status", "path": "", "how": ok[0]["how"],
+                                     "detail": "rc %s (%s) vs rc 0" % (ref["rc"], ref["err"])})
+                res["distinct_trees"] = len({json.dumps(s["tree"], sort_keys=True) for s in snaps})
+                res["distinct_stdin"] = len({s["stdin"] for s in snaps})
+                return res
             res["error"] = "thriftgo failed on a generated case (rc=%s): %s" % (ref["rc"], ref["err"])
             return res
         if case["cfg"]["plugin"] != "none" and ref["stdin"] is None:
@@ -521,6 +533,60 @@ def model_check(ctx, cases_by_key):
     return total_div
 
 
+REPLACER_CFG = """SPECIFICATION RSpec
+CONSTANTS
+  Letters = {"p", "q"}
+  MaxName = 2
+  MaxMarkers = %(markers)d
+  Patches = {"P", ""}
+INVARIANTS OrderFree MarkersFree Emit
+CHECK_DEADLOCK FALSE
+"""
+
+
+def replacer_conformance(ctx):
+    """the one order-sensitive primitive behind site fm.replacer: TLC proves (bounded) that a prefix-free key set makes
+    strings.Replacer order-free and emits marker texts with the result; each is replayed many times into the real
+    generator.FileManager (a fresh Go map, hence a fresh walk order, per replay): one result only."""
+    inproc = ctx.build_harness("inproc")
+    markers, reps = (2, 8) if ctx.tier == "quick" else (3, 32)
+    r = ctx.tlc("Determinism", "Replacer", "rep.cfg", files={"rep.cfg": REPLACER_CFG % dict(markers=markers)},
+                timeout=1500, label="Replacer[markers=%d]" % markers)
+    cases = ctx.tlc_cases(r, prefix="RCASE ")
+    if not cases:
+        raise vlib.MachineryError("Replacer emitted no cases")
+    if not any(len(c["names"]) >= 2 and any(a != b and a == b[:len(a)] for a in c["names"] for b in c["names"])
+               for c in cases):
+        raise vlib.MachineryError("vacuous: no replacer case with a name that is a prefix of another name")
+    for c in cases:
+        c["reps"] = reps
+    cf, of = ctx.path("replacer-cases.ndjson"), ctx.path("replacer-obs.ndjson")
+    vlib.write_ndjson(cf, cases)
+    ctx.run([inproc, "c07replacer", cf, of], timeout=900)
+    obs = vlib.read_ndjson(of)
+    if len(obs) != len(cases):
+        raise vlib.MachineryError("c07replacer returned %d results for %d cases" % (len(obs), len(cases)))
+    mismatch = 0
+    for c, o in zip(cases, obs):
+        ctx.count(1, "replacer names=%d markers=%d prefix=%s" % (
+            len(c["names"]), c["text"].count("("),
+            any(a != b and a == b[:len(a)] for a in c["names"] for b in c["names"])))
+        if o["panic"] or o["errors"]:
+            raise vlib.MachineryError("FileManager refused a replacer case: %s %s" % (c, o))
+        if len(o["results"]) != 1:
+            ctx.violation({"check": "C07.replacer", "kind": "order-dependent-patching", "object": "code"},
+                          {"replacer_case": c}, {"distinct_results": o["results"], "content": o["content"], "replays": reps},
+                          "one result whatever order the insertion-point map is walked in (spec/Determinism/Replacer: OrderFree)",
+                          "BuildResponse gives different contents for the same file and patches")
+        elif o["results"][0] != "".join(c["want"]):
+            mismatch += 1
+    ctx.extra_cov["replacer_cases"] = len(cases)
+    ctx.extra_cov["replacer_replays_per_case"] = reps
+    ctx.extra_cov["replacer_result_differs_from_model"] = mismatch   # deterministic but not what Replacer.tla computes
+    ctx.sample({"replacer_case": cases[len(cases) // 2], "observed": obs[len(cases) // 2]})
+    return len(cases)
+
+
 SITE_OBJECT = {"refl": "refl", "fastgo": "fast", "plugin": "stdin", "go": "code", "fm": "code"}
 
 
@@ -531,19 +597,44 @@ def run(ctx, args):
 
     if args.replay:
         rp = json.load(open(args.replay))
+        if "replacer_case" in rp["case"]:
+            inproc = ctx.build_harness("inproc")
+            rc = dict(rp["case"]["replacer_case"], reps=256)
+            cf, of = ctx.path("replacer-cases.ndjson"), ctx.path("replacer-obs.ndjson")
+            vlib.write_ndjson(cf, [rc])
+            ctx.run([inproc, "c07replacer", cf, of], timeout=900)
+            o = vlib.read_ndjson(of)[0]
+            for k_, res_ in enumerate(o["results"] or ["<none>"]):
+                ctx.count(1, "replay replacer: distinct result %d" % k_)
+            ctx.count(1, "replay replacer: %d replays" % rc["reps"])
+            ctx.sample({"replacer_case": rc, "observed": o})
+            if len(o["results"]) != 1:
+                ctx.violation({"check": "C07.replacer", "kind": "order-dependent-patching", "object": "code"},
+                              {"replacer_case": rc}, o, "one result", "BuildResponse gives different contents")
+            return ctx.finish("replay of one replacer case, 256 replays")
         cases = [norm_case(rp["case"])]
         n = max(TIERS["thorough"]["n"], int(rp["case"].get("n", 0)))
     else:
         r = ctx.tlc("Determinism", "Gen_Determinism", tier["gen"], timeout=1500, label=tier["gen"])
-        cases = [norm_case(c) for c in ctx.tlc_cases(r)]
+        cases, dup = [], set()
+        for c in sorted((norm_case(c) for c in ctx.tlc_cases(r)), key=lambda c: (c["cfg"]["name"] == "s", c["id"])):
+            k = json.dumps([c["cfg"]["backend"], c["cfg"]["opts"], c["cfg"]["plugin"], c["cfg"]["recursive"], c["p"]],
+                           sort_keys=True)
+            if k not in dup:        # the same configuration can be listed under two names
+                dup.add(k)
+                cases.append(c)
         n = tier["n"]
         if not cases:
             raise vlib.MachineryError("TLC emitted no cases")
+        dev = os.environ.get("C07_DEV_CONFIGS")     # development aid only (never set by the registered commands)
+        if dev:
+            cases = [c for c in cases if c["cfg"]["name"] in dev.split(",")]
+            ctx.notes.append("C07_DEV_CONFIGS=%s: universe restricted to these configurations" % dev)
     for c in cases:
         c["leaky_objects"] = sorted({SITE_OBJECT.get(s.split(".")[0], "tree") for s in c["leaky"]})
     by_key = {(c["cfg"]["name"], pkey(c["p"])): c for c in cases}
 
-    if not args.replay:
+    if not args.replay and not os.environ.get("C07_DEV_CONFIGS"):
         # vacuity of the universe: every site of the table is reached by some case, every dimension at >= 2 and at Many keys
         reached_sites = {r_["site"] for c in cases for r_ in c["reached"]}
         need = {"refl.ann.decl", "refl.ann.member", "refl.namespaces", "refl.includes", "refl.constmap",
@@ -557,8 +648,6 @@ def run(ctx, args):
                 raise vlib.MachineryError("vacuous universe: site %s never walked with >= 8 keys" % s)
         if not any(not c["risky"] for c in cases):
             raise vlib.MachineryError("vacuous universe: no non-risky control case")
-        ndiv = model_check(ctx, by_key)
-        ctx.extra_cov["model_pairs_with_diverging_executions"] = ndiv
 
     # step 3: bind feature vectors to concrete programs
     for c in cases:
@@ -571,10 +660,18 @@ def run(ctx, args):
         if len(prog["files"]) != (c["files"] if c["cfg"]["recursive"] else len(prog["files"])):
             raise vlib.MachineryError("file count mismatch for %s" % pkey(c["p"]))
 
-    # step 4: repeated execution of the real binary
+    # step 4: repeated execution of the real binary (in the background while TLC works on the model, step 1)
     runner = Runner(ctx, thriftgo, plugin, n)
-    with concurrent.futures.ThreadPoolExecutor(max_workers=vlib.NCPU) as ex:
-        results = list(ex.map(runner.run_case, cases))
+    pool = concurrent.futures.ThreadPoolExecutor(max_workers=vlib.NCPU)
+    try:
+        futs = [pool.submit(runner.run_case, c) for c in cases]
+        if not args.replay and not os.environ.get("C07_DEV_CONFIGS"):
+            ndiv = model_check(ctx, by_key)
+            ctx.extra_cov["model_pairs_with_diverging_executions"] = ndiv
+            replacer_conformance(ctx)
+        results = [f.result() for f in futs]
+    finally:
+        pool.shutdown(wait=True, cancel_futures=True)
 
     executions = 0
     agree = pred_only = obs_only = 0
@@ -588,7 +685,11 @@ def run(ctx, args):
         cls = "cfg=%s+[%s] plugin=%s rec=%s reached=%s" % (
             c["cfg"]["backend"], ",".join(c["cfg"]["opts"]), c["cfg"]["plugin"], c["cfg"]["recursive"],
             ",".join("%s:%d" % (r_["site"], r_["keys"]) for r_ in c["reached"]))
-        ctx.count(1, cls)
+        if args.replay:
+            for how in res["hows"]:        # one case only: the evaluations are its executions
+                ctx.count(1, how)
+        else:
+            ctx.count(1, cls)
         observed = sorted({d["object"] for d in res["diffs"]})
         if observed == c["leaky_objects"]:
             agree += 1
@@ -600,7 +701,7 @@ def run(ctx, args):
             if SITE_OBJECT.get(s_.split(".")[0], "tree") not in observed:
                 u = unobserved.setdefault(s_, [0, 0])
                 u[0] += 1
-                u[1] = max(u[1], c["keys"][s_])
+                u[1] = max(u[1], c["keys"].get(s_, 0))
         for d in res["diffs"]:
             vcls = {"check": "C07." + ("stdin" if d["object"] == "stdin" else "tree"), "kind": d["kind"], "object": d["object"]}
             case = {"cfg": c["cfg"], "p": c["p"], "n": n, "keys": c["keys"], "reached": c["reached"], "leaky": c["leaky"],
@@ -648,10 +749,13 @@ def run(ctx, args):
              "definitions 3/8, all definition kinds), in thorough also every pair of deviations, and the program with "
              "everything, times the configurations; each executed %d times (GOMAXPROCS 1/2/16; fresh, re-used and "
              "garbage-filled output directory). distinct class = (backend, options, plugin, recursion, set of "
-             "(site, key count) at which an unordered collection of >= 2 keys is walked)" % (n + 2),
+             "(site, key count) at which an unordered collection of >= 2 keys is walked). Plus the TLC-enumerated "
+             "insertion-point texts of Replacer.tla, each replayed into generator.FileManager (class = number of "
+             "names, markers, whether a name is a prefix of another)" % (n + 2),
         assumptions=["map iteration seeds and goroutine schedules are sampled by repetition, not enumerated "
                      "(exhaustive: false); a leaking site walked with k keys is missed with the stated probability",
                      "the output directory name may appear in outputs; it is blanked before hashing (the statement exempts it)",
                      "IDL files are addressed by the same absolute path in every execution (the statement fixes the command line)",
                      "files left over from unrelated earlier runs under other names are not part of 'the set of output files'"],
-        trusted=["TLC", "lib/idl.py (renderer)", "hashlib.sha256", "harness/cmd/thrift-gen-verifdump (records stdin verbatim)"])
+        trusted=["TLC", "lib/idl.py (renderer)", "hashlib.sha256", "harness/cmd/thrift-gen-verifdump (records stdin verbatim)",
+                 "harness/cmd/inproc/c07replacer.go"])
